@@ -91,8 +91,8 @@ def _run(ck, hb, quick, replay):
             ck.violation(EIT_TIE, "EIT gains differ between the two frames (GainEIT %.2e, GainEITInternalPot %.2e relative Frobenius): %s" %
                          (levels.get("GainEIT", 0), levels.get("GainEITInternalPot", 0), "; ".join(d[2] for d in dec) or "no decision difference seen"), rp)
     # 2. generated models x motions
-    nmod = 14 if quick else 60; nmot = 2 if quick else 4; level = 1
-    kinds = ["nested", "nested", "nested", "nested", "split", "split", "inclusions", "inclusions", "nonconductive"]
+    nmod = 16 if quick else 60; nmot = 2 if quick else 4; level = 1
+    kinds = ["nested", "nested", "isolated", "nested", "split", "split", "inclusions", "inclusions", "nonconductive", "isolated", "nested"]
     items = []
     for n in range(nmod):
         kd = kinds[n % len(kinds)] if n < len(kinds) else ck.rng.choice(kinds)
@@ -118,7 +118,7 @@ def _run(ck, hb, quick, replay):
                   op_distribution=dict(topologies=topo, kernels=kdist), measured_rounding_level=stats.get("level", {}),
                   singular_pairs_compared_at_operator_level=stats.get("singular", 0), nearest_triangle_ties=stats.get("nearest_ties", 0),
                   witnesses=stats.get("witnesses", []), kernel_mismatches=kbad, decision_model_correspondence=dm, traces_validated_against_impl=len(recs) + sum(kdist.values()))
-    ck.cov["selfcheck_verdict_flips_not_raised"] = len(hc.SELFCHECK_FLIPS)   # see headcases.compare_decisions
+    ck.cov["selfcheck_verdict_flips"] = len(hc.SELFCHECK_FLIPS)   # raised as decision violations, see headcases.compare_decisions
     ck.cov["trusted_base"] += ["extraction (ExtrOcamlBasic only) of Geom/RunC02.v and the OCaml float record, for the decision-model correspondence",
                                "C++ harness harness/h_c02.cpp (calls HeadMat, invert, DipSourceMat, Head2EEGMat, Head2ECoGMat, Head2MEGMat, DipSource2MEGMat, Surf2VolMat, DipSource2InternalPotMat, EITSourceMat, SurfSourceMat, SurfSource2MEGMat and the Gain* classes of the rebuilt working tree)",
                                "Python generators lib/models.py, lib/headcases.py (models written at 17 significant digits)"]
